@@ -565,3 +565,121 @@ Proof. intros cs body H. apply is_utf8_encode. apply (stored_scalar_hexmacro_pro
 Lemma char_from_u32_spec_proof : forall x,
   (scalar x -> char_from_u32 x = Some x) /\ (~ scalar x -> char_from_u32 x = None).
 Proof. intro x. split; [apply char_from_u32_scalar|apply char_from_u32_none]. Qed.
+
+(* ------------------------------------------------------------------ the fixes are local *)
+(* On every input on which the unchecked conversion only ever produced scalar values, the checked code does
+   exactly what the unchecked code did: the fix commits change the outcome only where a non-scalar value
+   was being materialised. *)
+
+Lemma omap_done_intro : forall A B (f : A -> B) o a, o = Done a -> omap f o = Done (f a).
+Proof. intros A B f o a ->. reflexivity. Qed.
+
+Lemma clip_cells_local : forall fuel k total w data ev,
+  clip_cells char_from_u32_unchecked fuel k total w data = Done ev -> Forall ev_scalar ev ->
+  clip_cells char_from_u32 fuel k total w data = Done ev.
+Proof.
+  induction fuel as [|f IH]; intros k total w data ev H F; cbn [clip_cells] in *.
+  - destruct (total <=? k); [exact H|discriminate].
+  - destruct (total <=? k); [exact H|].
+    destruct data as [|d0 [|d1 rest0]]; try discriminate.
+    unfold char_from_u32_unchecked in H at 1.
+    destruct (take 14 (d0 :: d1 :: rest0)) as [[rec rest]|]; [|discriminate].
+    apply omap_done in H. destruct H as [ev' [H ->]].
+    inversion F as [|? ? S F']; subst. unfold ev_scalar, ev_char in S. cbn in S.
+    rewrite (char_from_u32_scalar _ S). apply omap_done_intro. apply IH; assumption.
+Qed.
+
+Lemma fix_is_local_clipboard_proof : forall data r,
+  clipboard char_from_u32_unchecked data = Done r -> Forall ev_scalar (c_cells r) ->
+  clipboard conv_clipboard data = Done r.
+Proof.
+  intros data r H F. change conv_clipboard with char_from_u32. unfold clipboard in *.
+  destruct data as [|tag rest]; [discriminate|].
+  destruct (negb (tag =? 0)); [discriminate|].
+  destruct (take 17 (tag :: rest)) as [[hd rest']|]; [|discriminate].
+  apply omap_done in H. destruct H as [ev [H ->]]. cbn [c_cells] in F.
+  apply omap_done_intro. apply clip_cells_local; assumption.
+Qed.
+
+Lemma cells_loop_local : forall chk fuel x y w h bs ev,
+  cells_loop char_from_u32_unchecked chk fuel x y w h bs = Done ev -> Forall ev_scalar ev ->
+  cells_loop char_from_u32 chk fuel x y w h bs = Done ev.
+Proof.
+  intro chk. induction fuel as [|f IH]; intros x y w h bs ev H F; [discriminate|].
+  cbn [cells_loop] in *.
+  destruct (h <=? y)%Z; [exact H|].
+  destruct ((x =? 0)%Z && match bs with [] => true | _ => false end); [exact H|].
+  destruct (w <=? x)%Z; [apply IH; assumption|].
+  destruct (decode_cell chk bs) as [r|r|ch r| |]; try discriminate; try (apply IH; assumption).
+  unfold char_from_u32_unchecked in H at 1.
+  apply omap_done in H. destruct H as [ev' [H ->]].
+  inversion F as [|? ? S F']; subst. unfold ev_scalar, ev_char in S. cbn in S.
+  rewrite (char_from_u32_scalar _ S). apply omap_done_intro. apply IH; assumption.
+Qed.
+
+Lemma fix_is_local_icy_proof : forall chk y0 w h bs ev,
+  cells char_from_u32_unchecked chk y0 w h bs = Done ev -> Forall ev_scalar ev ->
+  cells char_from_u32 chk y0 w h bs = Done ev.
+Proof.
+  intros chk y0 w h bs ev H F. unfold cells in *. destruct (w <=? 0)%Z; [exact H|].
+  apply cells_loop_local; assumption.
+Qed.
+
+Lemma glyphs_loop_local : forall fuel h ch data g,
+  glyphs_loop char_from_u32_unchecked fuel h ch data = Done g -> Forall key_scalar g ->
+  glyphs_loop char_from_u32 fuel h ch data = Done g.
+Proof.
+  induction fuel as [|f IH]; intros h ch data g H F.
+  - destruct data; [exact H|discriminate].
+  - destruct data as [|a r]; [exact H|]. cbn [glyphs_loop] in *.
+    destruct (take h (a :: r)) as [[g0 rest]|]; [|discriminate].
+    unfold char_from_u32_unchecked in H at 1.
+    apply omap_done in H. destruct H as [g' [H ->]].
+    inversion F as [|? ? S F']; subst. unfold key_scalar in S. cbn in S.
+    rewrite (char_from_u32_scalar _ S). apply omap_done_intro. apply IH; assumption.
+Qed.
+
+Lemma fix_is_local_glyphs_proof : forall h data g,
+  glyphs char_from_u32_unchecked h data = Done g -> Forall key_scalar g -> glyphs conv_glyphs h data = Done g.
+Proof.
+  intros h data g H F. change conv_glyphs with char_from_u32. unfold glyphs in *.
+  destruct h; [destruct data; [exact H|discriminate]|]; apply glyphs_loop_local; assumption.
+Qed.
+
+(* every glyph index that is a scalar value and has a complete chunk in the data IS a key (nothing else is dropped) *)
+Lemma glyphs_loop_complete : forall fuel h ch data g, (0 < h)%nat -> (length data <= fuel)%nat ->
+  glyphs_loop char_from_u32 fuel h ch data = Done g ->
+  forall k, ch <= k -> scalar k -> ((N.to_nat (k - ch) + 1) * h <= length data)%nat ->
+  In (k, firstn h (skipn (N.to_nat (k - ch) * h) data)) g.
+Proof.
+  induction fuel as [|f IH]; intros h ch data g Hh L H k LE SC LEN.
+  - destruct data; [cbn in LEN; nia|cbn in L; lia].
+  - destruct data as [|a r]; [cbn in LEN; nia|]. cbn [glyphs_loop] in H.
+    destruct (take h (a :: r)) as [[g0 rest]|] eqn:T; [|discriminate].
+    pose proof (take_rest_length _ _ _ _ T) as TL.
+    apply take_some in T. destruct T as [-> [-> L0]].
+    destruct (N.eq_dec k ch) as [->|NE].
+    + rewrite (char_from_u32_scalar _ SC) in H. apply omap_done in H. destruct H as [g' [_ ->]].
+      left. rewrite N.sub_diag. reflexivity.
+    + assert (S1 : N.to_nat (k - ch) = S (N.to_nat (k - (ch + 1)))) by lia.
+      assert (TLK : forall g', glyphs_loop char_from_u32 f h (ch + 1) (skipn h (a :: r)) = Done g' ->
+                     In (k, firstn h (skipn (N.to_nat (k - ch) * h) (a :: r))) g').
+      { intros g' Hg'. rewrite S1. cbn [Nat.mul]. rewrite <- skipn_add.
+        assert (A1 : (length (skipn h (a :: r)) <= f)%nat) by (rewrite skipn_length; cbn [length] in *; lia).
+        assert (A2 : ((N.to_nat (k - (ch + 1)) + 1) * h <= length (skipn h (a :: r)))%nat).
+        { rewrite skipn_length. rewrite S1 in LEN. lia. }
+        assert (A3 : ch + 1 <= k) by lia.
+        exact (IH h (ch + 1) (skipn h (a :: r)) g' Hh A1 Hg' k A3 SC A2). }
+      destruct (char_from_u32 ch).
+      * apply omap_done in H. destruct H as [g' [H ->]]. right. apply TLK. exact H.
+      * apply TLK. exact H.
+Qed.
+
+Lemma glyphs_complete_proof : forall h data g, (0 < h)%nat -> glyphs conv_glyphs h data = Done g ->
+  forall k, scalar k -> ((N.to_nat k + 1) * h <= length data)%nat ->
+  In (k, firstn h (skipn (N.to_nat k * h) data)) g.
+Proof.
+  intros h data g Hh H k SC LEN. apply glyphs_done in H. change conv_glyphs with char_from_u32 in H.
+  pose proof (glyphs_loop_complete (length data) h 0 data g Hh (le_n _) H k (N.le_0_l k) SC) as P.
+  rewrite N.sub_0_r in P. apply P. exact LEN.
+Qed.
